@@ -769,7 +769,13 @@ fn mode_allbuiltins(seed: u64, limit: usize) -> Vec<serde_json::Value> {
 
 // ------------------------------------------------------------------ mode: flat (C08): serialisation round trips, bit-exact
 fn flat_terms() -> Vec<Term<DeBruijn>> {
-    let mut out: Vec<Term<DeBruijn>> = vec![];
+    let mut extra: Vec<Term<DeBruijn>> = vec![];
+    for tag in [0usize, 1, 127, 128, 129, 255, 256, 300, 65535, 65536, 1 << 32] {
+        extra.push(Term::Constr { tag, fields: vec![] });
+        extra.push(Term::Constr { tag, fields: vec![Term::Constant(Rc::new(Constant::Integer(1.into()))), Term::Error] });
+        extra.push(Term::Case { constr: Rc::new(Term::Constr { tag, fields: vec![] }), branches: vec![Term::Error, Term::Constant(Rc::new(Constant::Unit))] });
+    }
+    let mut out: Vec<Term<DeBruijn>> = extra;
     for c in constant_pool() {
         out.push(Term::Constant(Rc::new(c)));
     }
@@ -874,7 +880,75 @@ fn mode_flat(_seed: u64, limit: usize) -> Vec<serde_json::Value> {
             }
         }
     }
-    println!("BOUNDS mode=flat {n} programs: every constant of the pool, nested list/pair types over string/bytestring/unit, a 600-byte string, every builtin, all closed terms of size<=4; versions 1.0.0 and 1.1.0; flat and hex(cbor) in de Bruijn, named-de-Bruijn and named form; address and published hash = blake2b-224(version tag ++ cbor) for V1, V2, V3; blueprint JSON save/load keeps program and version");
+    println!("BOUNDS mode=flat {n} programs: every constant of the pool, nested list/pair types over string/bytestring/unit, a 600-byte string, every builtin, constr/case with tags 0..2^32 (127/128, 255/256 boundaries), all closed terms of size<=4; versions 1.0.0 and 1.1.0; flat and hex(cbor) in de Bruijn, named-de-Bruijn and named form; address and published hash = blake2b-224(version tag ++ cbor) for V1, V2, V3; blueprint JSON save/load keeps program and version");
+    fails
+}
+
+// ------------------------------------------------------------------ mode: exmem (C05): the size measure of constants, against the specification's memoryUsage
+fn spec_int_words(n: &BigInt) -> i64 {
+    if n.sign() == num_bigint::Sign::NoSign { 1 } else { ((n.magnitude().bits() - 1) / 64) as i64 + 1 }
+}
+fn spec_bytes_words(len: usize) -> i64 {
+    if len == 0 { 1 } else { ((len - 1) / 8) as i64 + 1 }
+}
+fn spec_data_words(d: &pallas_primitives::alonzo::PlutusData) -> i64 {
+    use pallas_primitives::alonzo::PlutusData as PD;
+    4 + match d {
+        PD::Constr(c) => c.fields.iter().map(spec_data_words).sum::<i64>(),
+        PD::Map(m) => m.iter().map(|(k, v)| spec_data_words(k) + spec_data_words(v)).sum::<i64>(),
+        PD::Array(xs) => xs.iter().map(spec_data_words).sum::<i64>(),
+        PD::BigInt(b) => spec_int_words(&uplc::machine::value::from_pallas_bigint(b)),
+        PD::BoundedBytes(b) => spec_bytes_words(b.len()),
+    }
+}
+fn spec_const_words(c: &Constant) -> Option<i64> {
+    Some(match c {
+        Constant::Integer(i) => spec_int_words(i),
+        Constant::ByteString(b) => spec_bytes_words(b.len()),
+        Constant::String(s) => s.chars().count() as i64,
+        Constant::Unit | Constant::Bool(_) => 1,
+        Constant::ProtoList(_, xs) => { let mut t = 0; for x in xs { t += spec_const_words(x)?; } t }
+        Constant::ProtoPair(_, _, a, b) => spec_const_words(a)? + spec_const_words(b)?,
+        Constant::Data(d) => spec_data_words(d),
+        _ => return None,
+    })
+}
+fn mode_exmem(_seed: u64, limit: usize) -> Vec<serde_json::Value> {
+    use uplc::ast::Data;
+    let mut fails = vec![];
+    let mut ints: Vec<BigInt> = vec![0.into(), 1.into(), (-1).into(), 255.into(), 256.into()];
+    for k in [63u32, 64, 65, 127, 128, 129, 191, 192, 193, 255, 256, 257] {
+        let p = BigInt::from(1) << k;
+        for d in [-1i32, 0, 1] { ints.push(&p + d); ints.push(-(&p + d)); }
+    }
+    let mut pool: Vec<Constant> = vec![Constant::Unit, Constant::Bool(true), Constant::String("".into()), Constant::String("héllo wörld".into())];
+    for i in &ints { pool.push(Constant::Integer(i.clone())); pool.push(Constant::Data(Data::integer(i.clone()))); }
+    for len in [0usize, 1, 7, 8, 9, 15, 16, 17, 63, 64, 65, 300] {
+        let b: Vec<u8> = (0..len).map(|x| x as u8).collect();
+        pool.push(Constant::ByteString(b.clone()));
+        pool.push(Constant::Data(Data::bytestring(b)));
+    }
+    let neg128 = -(BigInt::from(1) << 128u32);
+    pool.push(Constant::Data(Data::list(vec![Data::integer(neg128.clone()), Data::bytestring(vec![1; 9]), Data::constr(1, vec![Data::integer(0.into())])])));
+    pool.push(Constant::Data(Data::map(vec![(Data::integer(neg128.clone()), Data::list(vec![])), (Data::bytestring(vec![]), Data::constr(0, vec![]))])));
+    pool.push(Constant::Data(Data::constr(7, vec![Data::constr(0, vec![Data::integer((BigInt::from(1) << 64u32) - 1)]), Data::map(vec![])])));
+    pool.push(Constant::ProtoList(Type::Integer, ints.iter().take(9).map(|i| Constant::Integer(i.clone())).collect()));
+    pool.push(Constant::ProtoList(Type::Data, vec![]));
+    pool.push(Constant::ProtoPair(Type::Integer, Type::ByteString, Rc::new(Constant::Integer(neg128.clone())), Rc::new(Constant::ByteString(vec![0; 17]))));
+    pool.push(Constant::ProtoList(Type::Pair(Rc::new(Type::Data), Rc::new(Type::Data)), vec![Constant::ProtoPair(Type::Data, Type::Data, Rc::new(Constant::Data(Data::integer(neg128.clone()))), Rc::new(Constant::Data(Data::bytestring(vec![2; 8]))))]));
+    let mut n = 0;
+    for c in &pool {
+        if fails.len() >= limit { break; }
+        let Some(want) = spec_const_words(c) else { continue };
+        n += 1;
+        let v = Value::Con(Rc::new(c.clone()));
+        let input = serde_json::json!({"constant": format!("{c:?}").chars().take(200).collect::<String>()});
+        match std::panic::catch_unwind(std::panic::AssertUnwindSafe(|| v.to_ex_mem())) {
+            Err(_) => fails.push(fail("exmem", "size measure panicked", input, format!("{want}"), "panic".into())),
+            Ok(got) => if got != want { fails.push(fail("exmem", "memory size of a constant differs from the specification's memoryUsage", input, format!("{want} words"), format!("{got} words"))) },
+        }
+    }
+    println!("BOUNDS mode=exmem {n} constants: integers at the 64-bit word boundaries (2^63..2^257, +-1, both signs), byte strings of length 0..300 around multiples of 8, the same inside Data (4 per node), lists, pairs, maps, nested Data");
     fails
 }
 
@@ -1507,6 +1581,50 @@ fn mode_optimizer(seed: u64, limit: usize) -> Vec<serde_json::Value> {
         "[(lam x (force [(force (builtin ifThenElse)) c (delay (con integer 0)) (delay x)])) [(builtin divideInteger) a b]]",
         "[(lam x (force [(force (builtin ifThenElse)) c (delay x) (delay (error))])) [(builtin divideInteger) a b]]",
     ];
+    // shapes on which the pattern-driven passes fire: the same constant operand of the same builtin three or more times
+    // (builtin currying, arithmetic rewrites), the same BLS literal more than once (constant hoisting)
+    let mut fixed: Vec<String> = fixed.iter().map(|s| s.to_string()).collect();
+    for op in ["subtractInteger", "addInteger", "multiplyInteger", "divideInteger", "modInteger"] {
+        for cst in [10i64, 1, 0, -4] {
+            let first = |x: &str| format!("[(builtin {op}) (con integer {cst}) {x}]");
+            let second = |x: &str| format!("[(builtin {op}) {x} (con integer {cst})]");
+            for mk in [&first as &dyn Fn(&str) -> String, &second] {
+                fixed.push(format!("[(builtin multiplyInteger) [(builtin multiplyInteger) {} {}] {}]", mk("a"), mk("b"), mk("[(builtin addInteger) a b]")));
+                fixed.push(format!("[(builtin addInteger) {} [(builtin addInteger) {} [(builtin addInteger) {} {}]]]", mk("a"), mk("b"), mk("(con integer 3)"), mk("[(builtin multiplyInteger) a a]")));
+            }
+        }
+    }
+    for op in ["lessThanInteger", "lessThanEqualsInteger", "equalsInteger"] {
+        let mk = |x: &str| format!("[(builtin {op}) (con integer 1) {x}]");
+        fixed.push(format!("(force [(force (builtin ifThenElse)) {} (delay (force [(force (builtin ifThenElse)) {} (delay a) (delay b)])) (delay (force [(force (builtin ifThenElse)) {} (delay (con integer 7)) (delay (con integer 8))]))])", mk("a"), mk("b"), mk("[(builtin addInteger) a b]")));
+    }
+    {
+        let grab = |kind: &str| -> Vec<String> {
+            let mut files = vec![];
+            walk(std::path::Path::new("/repo/crates/uplc/test_data/conformance/v3/builtin/semantics"), &mut files);
+            let pat = format!("(con bls12_381_{kind}_element 0x");
+            let mut lits = std::collections::BTreeSet::new();
+            for f in files {
+                if lits.len() >= 2 { break; }
+                if let Ok(code) = std::fs::read_to_string(&f) {
+                    if let Some(i) = code.find(&pat) {
+                        if let Some(j) = code[i..].find(')') { lits.insert(code[i..i + j + 1].to_string()); }
+                    }
+                }
+            }
+            lits.into_iter().collect()
+        };
+        let (g1, g2) = (grab("G1"), grab("G2"));
+        for (kind, lits) in [("G1", &g1), ("G2", &g2)] {
+            for l in lits.iter() {
+                fixed.push(format!("[(builtin bls12_381_{kind}_equal) {l} {l}]"));
+                fixed.push(format!("[(builtin bls12_381_{kind}_equal) [(builtin bls12_381_{kind}_add) {l} {l}] [(builtin bls12_381_{kind}_add) {l} {l}]]"));
+            }
+        }
+        if let (Some(a1), Some(a2)) = (g1.first(), g2.first()) {
+            fixed.push(format!("(force [(force (builtin ifThenElse)) [(builtin bls12_381_G1_equal) {a1} {a1}] (delay [(builtin bls12_381_G2_equal) {a2} {a2}]) (delay (con bool False))])"));
+        }
+    }
     let total = 1500;
     for k in 0..total + fixed.len() {
         if fails.len() >= limit { break; }
@@ -1515,13 +1633,42 @@ fn mode_optimizer(seed: u64, limit: usize) -> Vec<serde_json::Value> {
             let mut g = Gen { rng: &mut rng, next: 0 };
             g.int(depth, &vec!["a".to_string(), "b".to_string()], &vec!["c".to_string()])
         };
+        let mut bad = false;
         for (a, b, c) in [(0i64, 0i64, "True"), (1, 0, "False"), (-3, 2, "True"), (5, -1, "False")] {
             n += 1;
             let src = format!("(program 1.1.0 [(lam a (lam b (lam c {body}))) (con integer {a}) (con integer {b}) (con bool {c})])");
-            if let Some(f) = check_optimizer_text(&src) { fails.push(f); break; }
+            if let Some(f) = check_optimizer_text(&src) { fails.push(f); bad = true; break; }
+        }
+        // the same body as a FUNCTION: optimised once without knowing its arguments (what the compiler does with a
+        // validator or a library function), then applied; compared with the unoptimised function on the same arguments
+        if !bad {
+            let fsrc = format!("(program 1.1.0 (lam a (lam b (lam c {body}))))");
+            if let Ok(fprog) = uplc::parser::program(&fsrc) {
+                let input = serde_json::json!({"function": fsrc});
+                match std::panic::catch_unwind(std::panic::AssertUnwindSafe(|| uplc::optimize::aiken_optimize_and_intern(fprog.clone()))) {
+                    Err(_) => fails.push(fail("optimizer", "the optimiser panicked", input, "an optimised program".into(), "panic".into())),
+                    Ok(fopt) => {
+                        for (a, b, c) in [(0i64, 0i64, true), (1, 0, false), (-3, 2, true), (5, -1, false), (1, 2, true), (7, 3, false)] {
+                            n += 1;
+                            let apply = |p: &Program<Name>| {
+                                let mut q = p.clone();
+                                for arg in [Term::integer(a.into()), Term::integer(b.into()), Term::bool(c)] { q = q.apply_term(&arg); }
+                                q
+                            };
+                            let before = eval_named(&apply(&fprog));
+                            let after = eval_named(&apply(&fopt));
+                            let same = match (&before, &after) { (Ok(x), Ok(y)) => x == y, (Err(_), Err(_)) => true, _ => false };
+                            if !same {
+                                fails.push(fail("optimizer", "the optimised function evaluates differently on some argument", serde_json::json!({"function": fsrc, "args": [a, b], "flag": c}), format!("{before:?}"), format!("{after:?}  [optimised: {}]", fopt.to_pretty().split_whitespace().collect::<Vec<_>>().join(" "))));
+                                break;
+                            }
+                        }
+                    }
+                }
+            }
         }
     }
-    println!("BOUNDS mode=optimizer {n} runs: 3 fixed + {total} random compiler-shaped programs (typed Int/Bool expressions of depth 2..4: let, if/else, arithmetic, division, comparisons, fail) x 4 argument tuples; result before vs after aiken_optimize_and_intern; seed {seed}");
+    println!("BOUNDS mode=optimizer {n} runs: {} pattern-shaped (failing let in a branch; one constant operand of one builtin three or more times; repeated BLS literals) + {total} random compiler-shaped programs (typed Int/Bool expressions of depth 2..4: let, if/else, arithmetic, division, comparisons, fail) x 4 argument tuples inline + 6 applied to the separately optimised function; result before vs after aiken_optimize_and_intern; seed {seed}", fixed.len());
     fails
 }
 
@@ -1732,6 +1879,7 @@ fn main() {
             "datacodec" => mode_datacodec(seed, limit),
             "shrinker" => mode_shrinker(seed, limit),
             "proptest" => mode_proptest(seed, limit),
+            "exmem" => mode_exmem(seed, limit),
             "allbuiltins" => mode_allbuiltins(seed, limit),
             // the builtin grid, keeping only crashes (for the never-crash property a wrong value is not a violation)
             "builtins_np" => mode_builtins(seed, 1000).into_iter().filter(|f| f["what"].as_str().unwrap_or("").contains("panicked")).take(limit).collect(),
